@@ -12,6 +12,7 @@
   runtime dispatch for every possible value of the feature cache (`Hx.Runtime.backendFor`).
 -/
 import Hx.Lemmas.SwarProof
+import Hx.Lemmas.SwarGen
 import Hx.Lemmas.X86Proof
 import Hx.Lemmas.NeonProof
 import Hx.Scan.Dispatch
@@ -19,6 +20,13 @@ namespace Hx
 
 theorem c12_swar (w : Nat) (hw : w = 8 ∨ w = 4) (le : Bool) : (Swar.backend w le).Exact :=
   ⟨Swar.uriScanner_exact w hw le, Swar.valueScanner_exact w hw le, Swar.nameScanner_exact w (by omega)⟩
+
+/-- SWAR, on the range kernels regenerated from the current `src/simd/swar.rs` (every word size and
+endianness, i.e. also the targets that cannot be run in the sandbox): the translator accepted the source
+(`sourceOk`), the generated backend is exact, and it is the backend the rest of the model uses -/
+theorem c12_swar_generated (w : Nat) (hw : w = 8 ∨ w = 4) (le : Bool) :
+    Gen.Swar.sourceOk = true ∧ (Gen.Swar.backend w le).Exact ∧ Gen.Swar.backend w le = Swar.backend w le :=
+  ⟨rfl, Gen.Swar.backend_eq w le ▸ c12_swar w hw le, Gen.Swar.backend_eq w le⟩
 
 theorem c12_sse42 (w : Nat) (hw : w = 8 ∨ w = 4) : (X86.sse42Backend w).Exact :=
   ⟨X86.sse42Uri_exact (Swar.uriScanner_exact w hw true), X86.sse42Value_exact (Swar.valueScanner_exact w hw true),
